@@ -406,7 +406,8 @@ class Loop(SubCheck):
     stubs = Decide.stubs + ["vf/models/haplotag_model.py BamIn/BamOut (pysam.AlignmentFile: fetch by region overlap, fetch('*'), write), VcfIn (VcfReader.fetch_regions), TextOut (xopen); md5_of is replaced by a constant. "
                             "The replay runs the real module's run_haplotag on real pysam.AlignedSegment records and compiled whatshap.core objects under the same file stand-ins; real BAM/VCF file I/O is outside"]
     required_cover = ["supplementary tagged like its primary", "supplementary left untagged", "secondary untagged", "placed unmapped untagged", "stale tags removed from an untagged record",
-                      "tagged record", "regions given", "unmapped tail copied", "mates share the tag", "duplicate-flagged record tagged"]
+                      "tagged record", "regions given", "unmapped tail copied", "mates share the tag", "duplicate-flagged record tagged",
+                      "contig holding only a placed unmapped record"]
     max_decisions = 20000
 
     def shapes(self, tier):
@@ -420,6 +421,10 @@ class Loop(SubCheck):
                     roles = list(rest[:ppos]) + ["P"] + list(rest[ppos:])
                     for r in regs:
                         out.append(dict(roles="".join(roles), regions=r))
+        # a second contig (listed in the BAM and VCF headers, no variant on it) that holds nothing but a placed unmapped
+        # record - what the index statistics of a BAM count as "unmapped", not "mapped"
+        for roles in (["PMS", "QPU", "XSP", "PUU"] if tier == "quick" else ["".join(r) for r in itertools.product("PMSXQU", repeat=3) if "P" in r]):
+            out.append(dict(roles=roles, regions=None, chr2="V"))
         return out
 
     def bounds(self, tier):
@@ -460,6 +465,16 @@ class Loop(SubCheck):
             a = impl.make_aln(nm, flag, 100 + 10 * i, 20, tags)
             recs.append(a)
             spans[id(a)] = (100 + 10 * i, 120 + 10 * i) if not flag & 4 else (100 + 10 * i, 101 + 10 * i)
+        more_tables = []
+        if shape.get("chr2"):
+            e.cover("contig holding only a placed unmapped record")
+            tags = dict(XX="onchr2")
+            if stale:
+                tags.update(STALE)
+            v = impl.make_aln("v", 4, 50, 20, tags, 1)
+            recs.append(v)
+            spans[id(v)] = ("chr2", 50, 51)
+            more_tables.append(impl.vcf.VariantTable("chr2", [SAMPLE]))
         tags = dict(XX="tail")
         if stale:
             tags.update(STALE)
@@ -467,7 +482,7 @@ class Loop(SubCheck):
         recs.append(tail)
         spans[id(tail)] = None
         before = [hm.snap(a) for a in recs]
-        header = {"HD": {"VN": "1.6", "SO": "coordinate"}, "SQ": [{"SN": CHROM, "LN": 100000}], "RG": [{"ID": "g", "SM": SAMPLE}]}
+        header = {"HD": {"VN": "1.6", "SO": "coordinate"}, "SQ": [{"SN": CHROM, "LN": 100000}] + ([{"SN": "chr2", "LN": 100000}] if shape.get("chr2") else []), "RG": [{"ID": "g", "SM": SAMPLE}]}
         bam_in = hm.BamIn(recs, header, lambda a: spans[id(a)])
         bam_out, text_out = hm.BamOut(), hm.TextOut()
 
@@ -480,7 +495,7 @@ class Loop(SubCheck):
                 return bam_out if ("header" in kw or str(kw.get("mode", "r")).startswith("w")) else bam_in
 
         mod.pysam = _Pysam
-        mod.VcfReader = lambda *a, **k: hm.VcfIn([SAMPLE], vt, mod.VcfInvalidChromosome)
+        mod.VcfReader = lambda *a, **k: hm.VcfIn([SAMPLE], vt, mod.VcfInvalidChromosome, more_tables)
         mod.PhasedInputReader = lambda *a, **k: hm.Reader(impl.core, {SAMPLE: reads})
         mod.md5_of = lambda path: "0" * 32
         mod.xopen = lambda path, mode="wt": text_out
@@ -564,7 +579,7 @@ class Loop(SubCheck):
         e.check(len(lines) - 1 == len(prim), "haplotag list does not have one line per written primary record", ctx)
         for l, w in zip(lines[1:], prim):
             t = dict(w[3])
-            want = [w[0], "H%d" % t["HP"] if "HP" in t else "none", str(t["PS"]) if "PS" in t else "none", CHROM]
+            want = [w[0], "H%d" % t["HP"] if "HP" in t else "none", str(t["PS"]) if "PS" in t else "none", "chr2" if w[0] == "v" else CHROM]
             e.check(l == want, "haplotag list line disagrees with the tags written to the BAM", lambda: dict(ctx(), line=l, expected=want))
 
     def classify(self, shape, v):
